@@ -94,6 +94,36 @@ def editable_cells(net, rng):
     return out
 
 
+def fluid_ops(net, rng):
+    """[(op, undo op)] on the fluid / standard types of this net"""
+    out = []
+    fl = net.fluid
+    for name, prop in sorted(fl.all_properties.items()):
+        if name not in ("density", "viscosity", "heat_capacity", "compressibility", "der_compressibility", "molar_mass"):
+            continue
+        try:
+            v = float(prop.get_at_value(293.15) if name != "compressibility" else prop.get_at_value(5.0))
+        except Exception:  # noqa: BLE001
+            try:
+                v = float(prop.get_at_value())
+            except Exception:  # noqa: BLE001
+                continue
+        if v == v and name != "der_compressibility":
+            out.append((["fluid_const", name, v * rng.choice([0.9, 1.05, 1.2])], ["fluid_restore", name]))
+        out.append((["fluid_scale", name, rng.choice([0.9, 1.1, 1.25])], ["fluid_restore", name]))
+    others = [f for f in (["water"] if not fl.is_gas else ["hgas", "lgas", "hydrogen", "methane"]) if f != fl.name]
+    if others:
+        out.append((["fluid_swap", rng.choice(others)], ["fluid_original"]))
+    if "pump" in net and len(net.pump) and "pump" in net.std_types:
+        used = sorted(set(net.pump.std_type.values))
+        alls = sorted(net.std_types["pump"].keys())
+        if used and len(alls) > 1:
+            a = rng.choice(used)
+            b = rng.choice([x for x in alls if x != a])
+            out.append((["stdtype_swap", "pump", a, b], ["stdtype_swap", "pump", a, a]))
+    return out
+
+
 def gen_history(rng, net, profile, thorough):
     """2-8 operations; every edit is undone later or stays (both occur); ends with a comparable run"""
     from harness import c12_hist as H
@@ -107,6 +137,7 @@ def gen_history(rng, net, profile, thorough):
     hist, pending = [], []
     scratch = copy.deepcopy(net)
     cells = editable_cells(scratch, rng)
+    fops = fluid_ops(scratch, rng)
     toggles = [c for c in cells if isinstance(c[3], bool) or c[2] in ("from_junction", "to_junction")]
     upd_focus = bool(kw0.get("only_update_hydraulic_matrix"))
     if upd_focus and toggles:
@@ -130,6 +161,11 @@ def gen_history(rng, net, profile, thorough):
                 hist.append(["run", dict(kw0, mode="hydraulics")])
                 kw = dict(kw0, mode="heat")
             hist.append(["run", kw])
+        elif r < 0.52 and fops:
+            # the fluid / a standard type is part of the description too
+            op, undo = rng.choice(fops)
+            hist.append(op)
+            pending.append(undo)
         elif r < 0.70 and cells:
             t, row, c, val = rng.choice(cells)
             old = H.cell(scratch, t, row, c)
@@ -139,7 +175,8 @@ def gen_history(rng, net, profile, thorough):
         elif r < 0.85 and pending:
             op = pending.pop(rng.randrange(len(pending)))
             hist.append(op)
-            scratch[op[1]].at[op[2], op[3]] = H.val_in(op[4])
+            if op[0] == "edit":
+                scratch[op[1]].at[op[2], op[3]] = H.val_in(op[4])
         elif r < 0.93:
             hist.append(["setopts", rng.choice([{"tol_p": 1e-6}, {"max_iter_hyd": 25}, {"iter": 30},
                                                {"ambient_temperature": 288.15}, {"alpha": 1}])])
@@ -174,7 +211,7 @@ def replay_history(spec, hist, check_every=True):
     prev_failure = "none"
     for i, op in enumerate(hist):
         if op[0] != "run":
-            H.apply_user_op(net, op)
+            H.apply_user_op(net, op, net0)
             user_ops.append(op)
             continue
         kw = op[1]
@@ -200,7 +237,7 @@ def replay_history(spec, hist, check_every=True):
             continue
         fresh = copy.deepcopy(net0)
         for u in user_ops:
-            H.apply_user_op(fresh, u)
+            H.apply_user_op(fresh, u, net0)
         if kw.get("mode") == "heat":
             # the excepted state: a converged hydraulic solution of the *same* description
             hk = dict(kw, mode="hydraulics")
@@ -389,6 +426,50 @@ def probe_leftover(ctx, specs):
     ctx.corr("leftover probe: failed call without reuse, then only_update+reuse call == fresh net", n, bad)
 
 
+def probe_description_objects(ctx, specs):
+    """the fluid and the standard types are objects of the description: calculate, change one of them on the SAME
+    net / Fluid object (replace a property, alter its parameters in place, swap the fluid, swap a standard type),
+    calculate again - and: change, calculate, restore, calculate.  Every call must equal the same call on a fresh
+    copy in the same state (bit-identical).  This is the search for state kept outside the net (hidden_state)."""
+    from harness import gen
+    n = bad = 0
+    seen = set()
+    for p, spec in specs:
+        net = gen.build(spec)
+        kws = [{"mode": "hydraulics", "use_numba": False}]
+        if p == "heat":
+            kws.append({"mode": "sequential", "use_numba": False})
+        fo = fluid_ops(net, ctx.rng)
+        if ctx.quick and len(fo) > 3:
+            # always the density (used in several places of the calculation), the rest sampled
+            dens = [x for x in fo if x[0][1] == "density"][:2]
+            rest = [x for x in fo if x not in dens]
+            ctx.rng.shuffle(rest)
+            fo = dens + rest[:3 - len(dens)]
+        for op, undo in fo:
+            for kw in (kws if not ctx.quick else kws[-1:]):
+                for hist in ([["run", kw], op, ["run", kw]], [op, ["run", kw], undo, ["run", kw]]):
+                    try:
+                        problems, stats = replay_history(spec, hist)
+                    except Exception as e:  # noqa: BLE001
+                        ctx.broken("harness", "description-object probe", repr(e) + " " + json.dumps(hist)[:200])
+                        continue
+                    n += stats["compared"]
+                    if problems:
+                        bad += 1
+                        pb = problems[0]
+                        key = (pb["kind"], op[0], op[1])
+                        if key in seen:
+                            continue
+                        seen.add(key)
+                        ctx.violation({"kind": pb["kind"], "where": pb["where"], "after_edit": "%s:%s" % (op[0], op[1]),
+                                       "mode": kw["mode"]},
+                                      "after %s on the same net object: %s" % (json.dumps(op), pb["what"]),
+                                      {"spec": spec, "history": hist})
+    ctx.corr("description-object probe: calls around fluid / standard-type changes == fresh copy in the same state",
+             n, bad)
+
+
 # ------------------------------------------------------------------------------------------ main
 def make_specs(ctx, n):
     from harness import gen
@@ -488,6 +569,8 @@ def run(ctx):
                      % stage_leaks)
         inner = sorted(set(x for k, tr in progs.items() if not k[2] for x in teff.leaky_sites(tr)))
         ctx.extra["raise_sites_inside_the_loop_keeping_the_cache"] = inner
+        for mod, where, kind in getattr(sc, "hidden_state", []):
+            ctx.note("state outside the net: %s %s: %s" % (mod, where, kind))
         for fnq, key, how, line in sc.alias_writes:
             ctx.note("alias write: %s -> %s (%s, line %d)" % (fnq, key, how, line))
     # ---- differential
@@ -539,6 +622,17 @@ def run(ctx):
     for k, v in tot.items():
         ctx.count(k, v)
     probe_leftover(ctx, specs[:6] if ctx.quick else specs[:20])
+    # where a fluid property enters depends on the net (heights, pumps / compressors, friction model, thermal part):
+    # all generated nets plus gas / water nets with height differences
+    extra = []
+    want = ["gas", "gas", "gas", "water"] if ctx.quick else ["gas"] * 8 + ["water"] * 4
+    for _ in range(80):
+        if not want:
+            break
+        sp = gen.gen_net(ctx.rng, want[0])
+        if sum(1 for fn, kw in sp["ops"] if fn == "create_junction" and kw.get("height_m")) >= 2:
+            extra.append((want.pop(0), sp))
+    probe_description_objects(ctx, extra + (specs if ctx.quick else specs[:20]))
     heat_vs_sequential(ctx, specs)
     if not proved and not ctx.violations:
         ctx.note("obligation broken and the differential found no concrete input")
